@@ -43,8 +43,12 @@ impl<'a> Parser<'a> {
         Ok(())
     }
     fn generate_ast(&mut self, oper_prec: OperatorCategory) -> Result<Node, ParseError> {
+        #[cfg(feature = "verif_hooks")]
+        crate::verif_hooks::tick();
         let mut left_expr = self.parse_number()?;
         while oper_prec < self.current_token.get_oper_prec() {
+            #[cfg(feature = "verif_hooks")]
+            crate::verif_hooks::tick();
             if self.current_token == Token::Eof {
                 break;
             }
@@ -58,6 +62,8 @@ impl<'a> Parser<'a> {
         self.check_paren(Token::LeftParen)?;
         let mut args = Vec::new();
         for i in 0..n {
+            #[cfg(feature = "verif_hooks")]
+            crate::verif_hooks::tick();
             let arg_expr = self.generate_ast(OperatorCategory::DefaultZero)?;
             args.push(arg_expr);
             if i < n - 1 {
